@@ -28,10 +28,10 @@ Shape3 == <<1, 2, 3>>
 Shape4 == <<1, 2, 2, 3>>
 Shape5 == <<1, 2, 2, 3, 4>>
 
-VARIABLES mode, cur, want, start, cache, taint, pend, att, verdict, why, fF, fForged, fTaint, fHit, warm, jumps, hist
-vars == <<mode, cur, want, start, cache, taint, pend, att, verdict, why, fF, fForged, fTaint, fHit, warm, jumps, hist>>
+VARIABLES mode, cur, want, start, cache, taint, pend, att, verdict, why, fF, fForged, fTaint, fJump, fHit, warm, jumps, hist
+vars == <<mode, cur, want, start, cache, taint, pend, att, verdict, why, fF, fForged, fTaint, fJump, fHit, warm, jumps, hist>>
 (* the history is not part of a state's identity: TLC keeps one history per distinct state *)
-View == <<mode, cur, want, start, cache, taint, pend, att, verdict, why, fF, fForged, fTaint, fHit, warm, jumps>>
+View == <<mode, cur, want, start, cache, taint, pend, att, verdict, why, fF, fForged, fTaint, fJump, fHit, warm, jumps>>
 
 Depth    == N + 4
 ValidTab == [c \in Universe |-> ValidFrom(Universe, c, Depth)]
@@ -45,10 +45,10 @@ Init ==
     /\ mode = "idle" /\ cur = Missing /\ want = "" /\ start = Missing
     /\ warm \in {0} \cup 2..N          \* 0: cold cache; i: warmed by an honest verification of Honest(i)
     /\ cache = {HId(j) : j \in PathIdx(warm)} /\ taint = {} /\ pend = {}
-    /\ att = 0 /\ verdict = "none" /\ why = {} /\ fF = FALSE /\ fForged = FALSE /\ fTaint = FALSE /\ fHit = FALSE
+    /\ att = 0 /\ verdict = "none" /\ why = {} /\ fF = FALSE /\ fForged = FALSE /\ fTaint = FALSE /\ fJump = FALSE /\ fHit = FALSE
     /\ jumps = 0 /\ hist = <<>>
 
-Deviated == fF \/ fForged \/ fTaint
+Deviated == fF \/ fForged \/ fTaint \/ fJump
 
 Finish(ok, fails, h) ==
     /\ mode' = "done" /\ cur' = Missing /\ want' = "" /\ att' = att + 1
@@ -65,7 +65,7 @@ Finish(ok, fails, h) ==
 (* what the next attempt depends on: the cache only *)
 Reset ==
     /\ mode = "done" /\ mode' = "idle" /\ start' = Missing /\ verdict' = "none" /\ why' = {}
-    /\ fF' = FALSE /\ fForged' = FALSE /\ fTaint' = FALSE /\ fHit' = FALSE
+    /\ fF' = FALSE /\ fForged' = FALSE /\ fTaint' = FALSE /\ fJump' = FALSE /\ fHit' = FALSE
     /\ jumps' = 0
     /\ UNCHANGED <<cur, want, cache, taint, pend, att, warm, hist>>
 
@@ -75,12 +75,12 @@ Begin ==
          /\ mode' = "p1" /\ cur' = s /\ start' = s /\ want' = ""
          /\ hist' = Append(hist, [start |-> s, serve |-> <<>>, acc |-> FALSE])
     /\ pend' = {}
-    /\ UNCHANGED <<cache, taint, att, verdict, why, fF, fForged, fTaint, fHit, warm, jumps>>
+    /\ UNCHANGED <<cache, taint, att, verdict, why, fF, fForged, fTaint, fJump, fHit, warm, jumps>>
 
 (* verify_without_cache(cur) and what comes next: nextMode for a std certificate *)
 Verify(nextMode(_)) ==
     IF cur.kind = "genesis"
-    THEN /\ UNCHANGED <<fF, fForged, fTaint, fHit>>
+    THEN /\ UNCHANGED <<fF, fForged, fTaint, fJump, fHit>>
          /\ Finish(GenesisOk(cur), GenesisFails(cur), hist)
     ELSE \E p \in Answers :
            IF StdOk(cur, p)
@@ -91,8 +91,8 @@ Verify(nextMode(_)) ==
                 /\ cache' = IF CacheSound /\ ~p.hashOk THEN cache ELSE cache \cup {cur.id}
                 /\ fF' = (fF \/ p.epoch > cur.epoch)
                 /\ hist' = Note(p)
-                /\ UNCHANGED <<start, taint, att, verdict, why, fForged, fTaint, fHit, warm, jumps>>
-           ELSE /\ UNCHANGED <<fF, fForged, fTaint, fHit>>
+                /\ UNCHANGED <<start, taint, att, verdict, why, fForged, fTaint, fJump, fHit, warm, jumps>>
+           ELSE /\ UNCHANGED <<fF, fForged, fTaint, fJump, fHit>>
                 /\ Finish(FALSE, StdFails(cur, p), Note(p))
 
 (* first loop *)
@@ -105,7 +105,7 @@ P2d ==
        THEN /\ mode' = "p2h" /\ want' = Owner(cur.id).prev /\ cur' = Missing
             /\ fForged' = (fForged \/ ~cur.hashOk)
             /\ fTaint' = (fTaint \/ cur.id \in taint) /\ fHit' = TRUE
-            /\ UNCHANGED <<start, cache, taint, pend, att, verdict, why, fF, warm, jumps, hist>>
+            /\ UNCHANGED <<start, cache, taint, pend, att, verdict, why, fF, fJump, warm, jumps, hist>>
        ELSE Verify(LAMBDA p : "p2d")
 
 (* second loop, only a hash in hand *)
@@ -114,12 +114,13 @@ P2h ==
     /\ IF want \in cache
        THEN /\ want' = Owner(want).prev
             /\ fTaint' = (fTaint \/ want \in taint) /\ fHit' = TRUE
-            /\ UNCHANGED <<mode, cur, start, cache, taint, pend, att, verdict, why, fF, fForged, warm, jumps, hist>>
+            /\ UNCHANGED <<mode, cur, start, cache, taint, pend, att, verdict, why, fF, fForged, fJump, warm, jumps, hist>>
        ELSE \E c \in {a \in Answers : a.id = want \/ a.kind = "missing" \/ jumps < MaxJumps} :
-              IF c.kind = "missing"
-              THEN UNCHANGED <<fF, fForged, fTaint, fHit>> /\ Finish(FALSE, {"fetch"}, Note(c))
+              IF c.kind = "missing" \/ (FetchedHashChecked /\ c.id # want)
+              THEN UNCHANGED <<fF, fForged, fTaint, fJump, fHit>> /\ Finish(FALSE, {"fetch"}, Note(c))
               ELSE /\ mode' = "p2v" /\ cur' = c /\ want' = "" /\ hist' = Note(c)
                    /\ jumps' = IF c.id = want THEN jumps ELSE jumps + 1
+                   /\ fJump' = (fJump \/ c.id # want)
                    /\ UNCHANGED <<start, cache, taint, pend, att, verdict, why, fF, fForged, fTaint, fHit, warm>>
 
 (* the certificate fetched for a hash is verified whatever the cache says about its own hash *)
@@ -134,10 +135,12 @@ ClientSound ==
     verdict = "acc" => \/ ValidTab[start]
                        \/ ~EpochOrderStrict /\ fF
                        \/ ~CacheSound /\ (fForged \/ fTaint)
+                       \/ ~FetchedHashChecked /\ fJump
 
 (* staleness witnesses (each must be VIOLATED in its own run while the finding is listed) *)
 NoForgedHit  == ~(verdict = "acc" /\ fForged /\ ~fF /\ ~fTaint /\ ~ValidTab[start])
 NoTaintedHit == ~(verdict = "acc" /\ fTaint /\ ~fF /\ ~fForged /\ ~ValidTab[start])
+NoJumpAccept == ~(verdict = "acc" /\ fJump /\ ~fF /\ ~fForged /\ ~ValidTab[start])
 
 -----------------------------------------------------------------------------
 (* GEN: one session per finished attempt whose history is worth realising *)
@@ -158,7 +161,7 @@ GenCase ==
      valid |-> ValidTab[start],
      cls |-> <<IF verdict = "acc" THEN "accept" ELSE "reject",
                IF fF THEN "following" ELSE "-", IF fForged THEN "forgedHit" ELSE "-",
-               IF fTaint THEN "taintedHit" ELSE "-">> \o SetToSeq(why)]
+               IF fTaint THEN "taintedHit" ELSE "-">> \o SetToSeq(why) \o (IF fJump THEN <<"jump">> ELSE <<>>)]
 GenPrint ==
     (mode = "done" /\ (verdict = "acc" \/ (why # {"multi"} /\ (att = 1 \/ fHit))))
         => PrintT(<<"CASE", ToJson(GenCase)>>)
